@@ -1264,3 +1264,70 @@ def delete_objects_walk(ctx):
             ok = "retire_lists" in txt and any(len(fn.blocks[b]["succ"]) == 2 for b in fn.live_blocks())
         ctx.check(ok, rid, pat + "#every-list", "delete_objects applied in a loop over retire_lists",
                   "an orphan that is destroyed (queue of orphans drained at shutdown / adopted) must destroy every retire list it holds", fn.where(), fn=fn)
+
+
+def noexcept_never_exhausts(ctx):
+    """HP.slots / HE.slots: slot exhaustion is *reported* (bad_hazard_pointer_alloc / bad_hazard_era_alloc) - so no function of the reclaimers that is
+    declared noexcept may reach the throwing allocation: the exception would become std::terminate.  Call graph over resolved callees; constructor
+    overloads are told apart by arity and by the kind of their first parameter (guard / marked_ptr / concurrent_ptr)."""
+    facts = ctx.facts
+
+    def lib(fn):
+        return fn.file.startswith("xenium/") or "/xenium/" in fn.file
+
+    def kind(t):
+        t = t or ""
+        return "guard" if "guard_ptr" in t else "marked" if "marked_ptr" in t else "concurrent" if ("concurrent_ptr" in t or "atomic" in t) else "other"
+
+    def callees(fn):
+        for b, i, e, n in fn.events():
+            if n["k"] in ("call", "construct") and n.get("xen") and n.get("callee"):
+                cands = facts.shapes(n["callee"])
+                if n["k"] == "construct":
+                    args = fn.kids(e)
+                    c2 = [c for c in cands if len(c.params) == len(args)]
+                    if len({c.line for c in c2}) > 1 and args:
+                        ak = kind(fn.nodes[args[0]].get("t"))
+                        c2 = [c for c in c2 if kind(c.params[0].get("t")) == ak] or c2
+                    cands = c2
+                yield e, cands
+    memo = {}
+
+    def reach(fn, depth=0, stack=()):
+        key = id(fn)
+        if key in memo:
+            return memo[key]
+        if key in stack or depth > 12:
+            return None
+        for b, i, e, n in fn.events():
+            if n["k"] == "throw" and "bad_hazard" in fn.expr(e):
+                memo[key] = [(fn, e)]
+                return memo[key]
+        res = None
+        for e, cands in callees(fn):
+            for c in cands:
+                if lib(c):
+                    r = reach(c, depth + 1, stack + (key,))
+                    if r:
+                        res = [(fn, e)] + r
+                        break
+            if res:
+                break
+        memo[key] = res
+        return res
+    for rid, sub in (("HP.slots", "reclamation/impl/hazard_pointer.hpp"), ("HE.slots", "reclamation/impl/hazard_eras.hpp")):
+        n = 0
+        seen = set()
+        for fn in facts.fns:
+            if not fn.file.endswith(sub) or not fn.rec.get("nothrow") or fn.rec.get("dtor") or (fn.pat, fn.line) in seen:
+                continue
+            seen.add((fn.pat, fn.line))
+            n += 1
+            r = reach(fn)
+            ctx.check(r is None, rid, "%s@%d#noexcept-never-reaches-exhaustion" % (fn.pat, fn.line) if r else fn.pat + "#noexcept-never-reaches-exhaustion",
+                      "declared noexcept, no path to the exhaustion throw",
+                      "declared noexcept but reaches the slot-exhaustion throw (%s): with a static allocation strategy and all slots in use the documented "
+                      "exception becomes std::terminate instead of being reported to the caller" % (
+                          " -> ".join("%s:%d" % (a.pat.split("::")[-1], a.nodes[b].get("l", a.line)) for a, b in r) if r else ""), fn.where(), fn=fn)
+        if n < 5:
+            ctx.broken.append("%s: only %d noexcept functions analysed in %s" % (rid, n, sub))
